@@ -6,13 +6,13 @@ LEVEL = 'model_checking'
 PID = 'C03'
 FAMILY = 'resend'
 PROPS = ['P_C03']
-BASE = [{'role': 'acc', 'bs': 42}, {'role': 'acc', 'bs': 42, 'persist': False}]
+BASE = [{'role': 'acc', 'bs': 42}, {'role': 'acc', 'bs': 42, 'persist': False}, {'role': 'acc', 'bs': 44, 'dd': True}]
 ALT = [{'role': 'init', 'bs': 44}, {'role': 'acc', 'bs': 40}, {'role': 'init', 'bs': 41, 'persist': False}, {'role': 'acc', 'bs': 50}, {'role': 'init', 'bs': 42}]
 
 
 def configs(ctx):
     if ctx.tier == 'quick':
-        return BASE + [ALT[(ctx.seed + i) % len(ALT)] for i in range(min(2, len(ALT)))]
+        return BASE + [ALT[(ctx.seed + i) % len(ALT)] for i in range(1)]
     return BASE + ALT
 
 
